@@ -96,10 +96,13 @@ template <class X> struct ParseMon {
         ObjView v = read_uri<X>(u, first, n);
         Comp m = split(s); bool mabs; StrVec msegs; path_to_segments(m.path, m.hasAuth, &mabs, &msegs);
         Str where = fmt("parse/%s/%s", X::tag(), ep);
-        if (!v.malformed.empty()) { c.violation("C02", where + "/malformed", fmt("input=\"%s\": %s", esc(s).c_str(), v.malformed.c_str())); return; }
+        bool malformed = !v.malformed.empty();
+        if (malformed) c.violation("C02", where + "/malformed", fmt("input=\"%s\": %s", esc(s).c_str(), v.malformed.c_str()));
+        if (malformed && v.malformed.find("does not terminate") != Str::npos) return;      // recomposing a cyclic list would not return
         // C02 verdicts (first one wins); the C04 clause below is judged on the text alone, whatever C02 found: "converting the
         // parsed URI back to text yields the input" is violated end to end also when the parser stored the wrong thing
         [&]() {
+        if (malformed) return;
         Str d = comp_diff(v.c, m);
         if (!d.empty()) { c.violation("C02", where + "/component/" + d, fmt("input=\"%s\" library=%s model=%s", esc(s).c_str(), v.c.describe().c_str(), m.describe().c_str())); return; }
         if (v.abs != mabs) { c.violation("C02", where + "/absolutePath", fmt("input=\"%s\" flag=%d expected=%d", esc(s).c_str(), (int)v.abs, (int)mabs)); return; }
